@@ -145,25 +145,40 @@ theorem head_value' (st : Style) (i : Nat) {v : Value} (hw : v.wf = true) (hne :
     ∃ c t, printV st i v = c :: t ∧ okStart c = true := by
   cases v with
   | extant => exact absurd rfl hne
-  | float f => simp [Value.wf] at hw
+  | float f =>
+    rw [printV_prim_style st i rfl]
+    obtain ⟨c, t, h, hc⟩ := head_prim i (v := .float f) rfl hw
+    exact ⟨c, t, h, okStart_of_prim hc⟩
   | record a its =>
     cases a with
     | nil => exact ⟨'{', _, printV_record_nil' st i its, by decide⟩
     | cons n w r =>
       rw [printV_record_cons', printAttrs_cons']
       exact ⟨'@', _, List.cons_append .., by decide⟩
-  | int k n => rw [printV_prim_style st i rfl]; exact head_value i hw hne
-  | bool b => rw [printV_prim_style st i rfl]; exact head_value i hw hne
-  | text s => rw [printV_prim_style st i rfl]; exact head_value i hw hne
-  | data bs => rw [printV_prim_style st i rfl]; exact head_value i hw hne
+  | int k n =>
+    rw [printV_prim_style st i rfl]
+    obtain ⟨c, t, h, hc⟩ := head_prim i (v := .int k n) rfl hw
+    exact ⟨c, t, h, okStart_of_prim hc⟩
+  | bool b =>
+    rw [printV_prim_style st i rfl]
+    obtain ⟨c, t, h, hc⟩ := head_prim i (v := .bool b) rfl hw
+    exact ⟨c, t, h, okStart_of_prim hc⟩
+  | text s =>
+    rw [printV_prim_style st i rfl]
+    obtain ⟨c, t, h, hc⟩ := head_prim i (v := .text s) rfl hw
+    exact ⟨c, t, h, okStart_of_prim hc⟩
+  | data bs =>
+    rw [printV_prim_style st i rfl]
+    obtain ⟨c, t, h, hc⟩ := head_prim i (v := .data bs) rfl hw
+    exact ⟨c, t, h, okStart_of_prim hc⟩
 
 /-- What the attribute printer writes, any style. -/
 theorem printA_body' (st : Style) (i : Nat) {w : Value} (hw : w.wf = true) (hne : w ≠ .extant)
-    (hs : isAttrSoleSlot w = false) :
+    (hnf : ∀ f, w ≠ .float f) :
     printA st i w = '(' :: (printItems st i i true false (bodyItems w) ++ [')']) := by
   cases w with
   | extant => exact absurd rfl hne
-  | float f => simp [Value.wf] at hw
+  | float f => exact absurd rfl (hnf f)
   | int k n => simp [printA, bodyItems, printItems, printV]
   | bool b => simp [printA, bodyItems, printItems, printV]
   | text s => simp [printA, bodyItems, printItems, printV]
@@ -184,12 +199,7 @@ theorem printA_body' (st : Style) (i : Nat) {w : Value} (hw : w.wf = true) (hne 
           simp [printA, bodyItems, h0, h1, Attrs.isEmpty, printItems, printV_record_nil', hl]
         · simp [printA, bodyItems, h0, h1, Attrs.isEmpty]
     | cons n v r =>
-      have hss : its.isSoleSlot = false := by
-        cases its with
-        | nil => rfl
-        | val _ _ => rfl
-        | slot k x r' => cases r' <;> simp_all [isAttrSoleSlot, Items.isSoleSlot]
-      simp [printA, bodyItems, printItems, printV_record_cons', Attrs.isEmpty, hss]
+      simp [printA, bodyItems, printItems, printV_record_cons', Attrs.isEmpty]
 
 
 
@@ -311,7 +321,7 @@ structure IHs (n : Nat) : Prop where
       AttrFollow' tail →
       (∀ f, F0 ≤ f → pAfterAttr f (acc.append (Attrs.cons nm v r).norm) tail = R) → 1 ≤ F0 →
       6 * (Attrs.cons nm v r).size + F0 ≤ fuel →
-      pAttrs fuel acc (nm ++ (printA st i v ++ ((if r.isEmpty = true then [] else pad st ++ printAttrs st i r) ++ tail))) = R
+      pAttrs fuel acc (attrName nm ++ (printA st i v ++ ((if r.isEmpty = true then [] else pad st ++ printAttrs st i r) ++ tail))) = R
 
 section tails
 variable {n : Nat} (ih : IHs n) (st : Style) (r : Items) (hs : r.size ≤ n) (hw : r.wf = true) (k : Kind) (j i : Nat)
@@ -459,8 +469,8 @@ theorem items_step' {n : Nat} (ih : IHs n) (its : Items) (hs : its.size ≤ n + 
       simp only [skipMulti_cons f1, f3, ↓reduceIte, f4, Bool.false_eq_true, f5, he', ha, Items.norm]
   | slot key v r =>
     simp only [Items.size] at hs hf
-    simp only [Items.wf, Bool.and_eq_true, Bool.not_eq_true'] at hw
-    obtain ⟨⟨⟨hkw, hkb⟩, hvw⟩, hrw⟩ := hw
+    simp only [Items.wf, Bool.and_eq_true] at hw
+    obtain ⟨⟨hkw, hvw⟩, hrw⟩ := hw
     obtain ⟨c1, c2, c3⟩ := colon_facts k
     simp only [printItems, ↓reduceIte, List.nil_append, List.append_assoc, List.cons_append]
     rw [pItems_congr _ _ _ (skipMulti_white hww _)]
@@ -476,7 +486,7 @@ theorem items_step' {n : Nat} (ih : IHs n) (its : Items) (hs : its.size ≤ n + 
       have td : TokEnd (':' :: (pad st ++ (printV st j v ++ (printItems st j i false br r ++ (e ++ k.close :: rest))))) := by
         intro x hx; simp at hx; subst hx; decide
       obtain ⟨rest', he', hsk⟩ := ih.elem key (by omega) hkw hke st j f _ td
-        (by intro hb; rw [hkb] at hb; cases hb) (by omega)
+        (by intro _; simp [skipSpaces_cons c2, endsRecord]) (by omega)
       obtain ⟨g, rfl⟩ : ∃ g, f = g + 1 := ⟨f - 1, by omega⟩
       obtain ⟨g', rfl⟩ : ∃ g', g = g' + 1 := ⟨g - 1, by omega⟩
       have hsv := slot_value' ih st v r (by omega) (by omega) hvw hrw k j i br g' rest he key.norm (by omega) (by omega)
@@ -505,11 +515,9 @@ theorem attrs_cont' {n : Nat} (ih : IHs n) (st : Style) (nm : List Char) (v' : V
     exact hR f (by omega)
   | cons n2 v2 r2 =>
     obtain ⟨g, rfl⟩ : ∃ g, f = g + 1 := ⟨f - 1, by omega⟩
-    have hw2 := hrw
-    simp only [Attrs.wf, Bool.and_eq_true] at hw2
     simp only [Attrs.isEmpty, Bool.false_eq_true, ↓reduceIte, List.append_assoc]
     rw [pAfterAttr_congr _ _ (skipSpaces_spaces (pad_spaces st) _)]
-    rw [printAttrs_cons', attrName_ident hw2.1.1.1]
+    rw [printAttrs_cons']
     simp only [List.cons_append, List.append_assoc]
     rw [pAfterAttr]
     simp only [skipSpaces_cons at_facts.1]
@@ -521,43 +529,29 @@ theorem attrs_step' {n : Nat} (ih : IHs n) (nm : List Char) (v : Value) (r : Att
     (i fuel : Nat) (tail : List Char) (R : Res (Value × List Char)) (F0 : Nat) (hfol : AttrFollow' tail)
     (hR : ∀ f, F0 ≤ f → pAfterAttr f (acc.append (Attrs.cons nm v r).norm) tail = R) (h1 : 1 ≤ F0)
     (hf : 6 * (Attrs.cons nm v r).size + F0 ≤ fuel) :
-    pAttrs fuel acc (nm ++ (printA st i v ++ ((if r.isEmpty = true then [] else pad st ++ printAttrs st i r) ++ tail))) = R := by
+    pAttrs fuel acc (attrName nm ++ (printA st i v ++ ((if r.isEmpty = true then [] else pad st ++ printAttrs st i r) ++ tail))) = R := by
   obtain ⟨f, rfl⟩ : ∃ f, fuel = f + 1 := ⟨fuel - 1, by omega⟩
   simp only [Attrs.size] at hs hf
-  simp only [Attrs.wf, Bool.and_eq_true, Bool.not_eq_true'] at hw
-  obtain ⟨⟨⟨hnm, hvw⟩, hvs⟩, hrw⟩ := hw
+  simp only [Attrs.wf, Bool.and_eq_true] at hw
+  obtain ⟨hvw, hrw⟩ := hw
   simp only [Attrs.norm] at hR
   have hcont := attrs_cont' ih st nm v.norm r (by omega) hrw acc i tail R F0 hfol hR h1
-  obtain ⟨hl, hres⟩ := (quote_decision_agrees nm).mp hnm
-  obtain ⟨c, cs, rfl, hc, hcs⟩ := (lexIdent_eq_self_iff _).mp hl
-  have hq : c ≠ '"' := by intro h; subst h; simp [quote_not_identStart] at hc
-  have hX : ∀ X : List Char, stopsAt isIdentChar X →
-      lexIdent (c :: (cs ++ X)) = some (c :: cs, X) := fun X hX => lexIdent_append hl hX
-  -- the text after this attribute
-  have hXstop : stopsAt isIdentChar ((if r.isEmpty = true then [] else pad st ++ printAttrs st i r) ++ tail) ∧
-      ∀ x xs, (if r.isEmpty = true then [] else pad st ++ printAttrs st i r) ++ tail = x :: xs → x ≠ '(' := by
+  -- the text after this attribute: its first character is neither `(` nor an identifier character
+  have hXhead : ∀ x xs, (if r.isEmpty = true then [] else pad st ++ printAttrs st i r) ++ tail = x :: xs →
+      x ≠ '(' ∧ isIdentChar x = false := by
     cases r with
     | nil =>
       simp only [Attrs.isEmpty, ↓reduceIte, List.nil_append]
-      constructor
-      · intro x hx
-        rcases hfol x hx with rfl | rfl | rfl | rfl | rfl | rfl | rfl <;> decide
-      · intro x xs hxe; subst hxe
-        rcases hfol x (by simp) with rfl | rfl | rfl | rfl | rfl | rfl | rfl <;> decide
+      intro x xs hxe; subst hxe
+      rcases hfol x (by simp) with rfl | rfl | rfl | rfl | rfl | rfl | rfl <;> decide
     | cons n2 v2 r2 =>
       simp only [Attrs.isEmpty, Bool.false_eq_true, ↓reduceIte]
       rw [printAttrs_cons']
-      cases st
-      · exact ⟨by intro x hx; simp [pad] at hx; subst hx; decide,
-          by intro x xs hxe; simp [pad] at hxe; rw [← hxe.1]; decide⟩
-      · exact ⟨by intro x hx; simp [pad] at hx; subst hx; decide,
-          by intro x xs hxe; simp [pad] at hxe; rw [← hxe.1]; decide⟩
-      · exact ⟨by intro x hx; simp [pad] at hx; subst hx; decide,
-          by intro x xs hxe; simp [pad] at hxe; rw [← hxe.1]; decide⟩
+      intro x xs hxe
+      cases st <;> (simp [pad] at hxe; rw [← hxe.1]; decide)
   by_cases hve : v = .extant
   · subst hve
-    simp only [printA, List.nil_append, Value.norm, List.cons_append] at hcont ⊢
-    have hlex := hX _ hXstop.1
+    simp only [printA, List.nil_append, Value.norm] at hcont ⊢
     cases hXe : (if r.isEmpty = true then [] else pad st ++ printAttrs st i r) ++ tail with
     | nil =>
       have hr : r = .nil := by
@@ -569,48 +563,76 @@ theorem attrs_step' {n : Nat} (ih : IHs n) (nm : List Char) (v : Value) (r : Att
       subst hr
       have ht : tail = [] := by simpa [Attrs.isEmpty] using hXe
       subst ht
-      rw [hXe] at hlex
-      rw [pAttrs_ident_end hq hlex]
+      rw [List.append_nil, pAttrs_name_end]
       have hRF := hR F0 (Nat.le_refl _)
       obtain ⟨g, rfl⟩ : ∃ g, F0 = g + 1 := ⟨F0 - 1, by omega⟩
       rw [pAfterAttr] at hRF
       simp only [skipSpaces, List.dropWhile, lexPrim, endsRecord, ↓reduceIte, Attrs.norm] at hRF
       simpa [Value.norm] using hRF
     | cons x xs =>
-      have hx := hXstop.2 x xs hXe
-      rw [hXe] at hlex hcont
-      rw [pAttrs_ident_nobody hq hlex hx]
+      obtain ⟨hx, hxi⟩ := hXhead x xs hXe
+      rw [hXe] at hcont
+      rw [pAttrs_name_nobody f acc nm hx hxi]
       exact hcont f (by omega)
-  · rw [printA_body' st i hvw hve hvs]
-    have hstop : stopsAt isIdentChar ('(' :: (printItems st i i true false (bodyItems v) ++ [')'] ++
-        ((if r.isEmpty = true then [] else pad st ++ printAttrs st i r) ++ tail))) := by
-      intro x hx; simp at hx; subst hx; decide
-    have hlex := hX _ hstop
-    have hb := ih.items (bodyItems v) (by have := bodyItems_size v; omega) (bodyItems_wf hvw) st .ab i i false f
-      ((if r.isEmpty = true then [] else pad st ++ printAttrs st i r) ++ tail) false [] [] White.nil (Or.inl Spaces.nil)
-      (fun _ => bodyItems_notSoleExtant hve) (by intro h; cases h)
-      (by have := bodyItems_size v; omega)
-    simp only [Kind.close, List.nil_append] at hb
-    simp only [List.append_assoc, List.cons_append, List.nil_append] at hlex hb ⊢
-    rw [pAttrs_ident_body hq hlex hb, attrBody_bodyItems]
-    exact hcont f (by omega)
-
-
-
+  · by_cases hfl : ∃ x, v = .float x
+    · -- a float in attribute position is written in the `{:e}` layout
+      obtain ⟨x, rfl⟩ := hfl
+      cases x with
+      | nan => simp [Value.wf, Flt.isCanon] at hvw
+      | inf b => simp [Value.wf, Flt.isCanon] at hvw
+      | fin fneg fm fe =>
+        have hcan := Flt.canon_cases (by simpa [Value.wf] using hvw)
+        have hte : TokEnd (')' :: ((if r.isEmpty = true then [] else pad st ++ printAttrs st i r) ++ tail)) := by
+          intro y hy; simp at hy; subst hy; decide
+        have hl := lexPrim_expChars fneg fm fe hcan hte
+        obtain ⟨g, rfl⟩ : ∃ g, f = g + 1 := ⟨f - 1, by omega⟩
+        obtain ⟨g', rfl⟩ : ∃ g', g = g' + 1 := ⟨g - 1, by omega⟩
+        have hb : pItems (g' + 1 + 1) .ab false (expChars (.fin fneg fm fe) ++
+            ')' :: ((if r.isEmpty = true then [] else pad st ++ printAttrs st i r) ++ tail)) =
+            .ok (.val (.float (.fin fneg fm fe)) .nil,
+              (if r.isEmpty = true then [] else pad st ++ printAttrs st i r) ++ tail) := by
+          cases hx : expChars (.fin fneg fm fe) with
+          | nil =>
+            rw [hx] at hl; simp only [List.nil_append] at hl
+            exfalso
+            rcases lexPrim_head hl with h | h | h | h | h | h | h <;> revert h <;> decide
+          | cons c t =>
+            rw [hx] at hl
+            simp only [List.cons_append] at hl ⊢
+            have hps : primStart c = true := by
+              rcases lexPrim_head hl with h | h | h | h | h | h | h <;> simp [primStart, h]
+            obtain ⟨f1, f2, f3, f4, f5, f6⟩ := okStart_facts (okStart_of_prim hps) .ab
+            have he := pElem_prim (f := g') (primStart_ne hps '@' (by decide)) (primStart_ne hps '{' (by decide)) hl
+            rw [pItems]
+            simp only [skipMulti_cons f1, f3, ↓reduceIte, f4, Bool.false_eq_true, f5, he]
+            rw [pAfterValue]
+            simp [skipSpaces, List.dropWhile, isSpace, Kind.close]
+        simp only [printA, List.cons_append, List.append_assoc, List.nil_append]
+        rw [pAttrs_name_body _ acc nm hb]
+        simpa [attrBody, Value.norm] using hcont (g' + 1 + 1) (by omega)
+    · rw [printA_body' st i hvw hve (by intro x hx; exact hfl ⟨x, hx⟩)]
+      have hb := ih.items (bodyItems v) (by have := bodyItems_size v; omega) (bodyItems_wf hvw) st .ab i i false f
+        ((if r.isEmpty = true then [] else pad st ++ printAttrs st i r) ++ tail) false [] [] White.nil (Or.inl Spaces.nil)
+        (fun _ => bodyItems_notSoleExtant hve) (by intro h; cases h)
+        (by have := bodyItems_size v; omega)
+      simp only [Kind.close, List.nil_append] at hb
+      simp only [List.append_assoc, List.cons_append, List.nil_append] at hb ⊢
+      rw [pAttrs_name_body f acc nm hb, attrBody_bodyItems]
+      exact hcont f (by omega)
 
 theorem elem_prim' {f : Nat} (st : Style) (i : Nat) {v : Value} (hp : v.isPrim = true) (hw : v.wf = true)
     {rest : List Char} (hd : TokEnd rest) : pElem (f + 1) (printV st i v ++ rest) = .ok (v.norm, rest) := by
   rw [printV_prim_style st i hp]
   have hl := lexPrim_value i hp hw hd
-  obtain ⟨c, t, hc, hps⟩ := head_prim i hp (by intro x hx; subst hx; simp [Value.wf] at hw)
+  obtain ⟨c, t, hc, hps⟩ := head_prim i hp hw
   rw [hc] at hl ⊢
   simp only [List.cons_append] at hl ⊢
   exact pElem_prim (primStart_ne hps '@' (by decide)) (primStart_ne hps '{' (by decide)) hl
 
 theorem endsRecord_head {c : Char} {t : List Char} (h : endsRecord (c :: t) = true) :
-    c = ',' ∨ c = ';' ∨ c = ')' ∨ c = '}' ∨ c = '\n' ∨ c = '\r' := by
+    c = ',' ∨ c = ';' ∨ c = ')' ∨ c = '}' ∨ c = ':' ∨ c = '\n' ∨ c = '\r' := by
   simp only [endsRecord, Bool.or_eq_true, decide_eq_true_eq] at h
-  rcases h with ((h | h) | h) | h
+  rcases h with (((h | h) | h) | h) | h
   · have hs : separators = [44, 59] := by decide
     simp only [isSep, hs, List.contains_cons, List.contains_nil, Bool.or_false, Bool.or_eq_true, beq_iff_eq] at h
     rcases h with h | h
@@ -618,10 +640,11 @@ theorem endsRecord_head {c : Char} {t : List Char} (h : endsRecord (c :: t) = tr
     · right; left; rw [← Char.ofNat_toNat c, h]
   · exact Or.inr (Or.inr (Or.inl h))
   · exact Or.inr (Or.inr (Or.inr (Or.inl h)))
+  · exact Or.inr (Or.inr (Or.inr (Or.inr (Or.inl h))))
   · unfold lineEnding? at h
     split at h
-    · rename_i heq; simp only [List.cons.injEq] at heq; exact Or.inr (Or.inr (Or.inr (Or.inr (Or.inl heq.1))))
-    · rename_i heq; simp only [List.cons.injEq] at heq; exact Or.inr (Or.inr (Or.inr (Or.inr (Or.inr heq.1))))
+    · rename_i heq; simp only [List.cons.injEq] at heq; exact Or.inr (Or.inr (Or.inr (Or.inr (Or.inr (Or.inl heq.1)))))
+    · rename_i heq; simp only [List.cons.injEq] at heq; exact Or.inr (Or.inr (Or.inr (Or.inr (Or.inr (Or.inr heq.1)))))
     · simp at h
 
 /-- A body-less record ends where a separator, a closing delimiter, a line ending or the end of the document follows
@@ -634,11 +657,12 @@ theorem pAfterAttr_end' {g : Nat} {A : Attrs} {rest : List Char} (hrec : endsRec
   | cons c t =>
     rw [hx] at hrec
     have hfacts : c ≠ '@' ∧ c ≠ '{' ∧ lexPrim (c :: t) = none := by
-      rcases endsRecord_head hrec with rfl | rfl | rfl | rfl | rfl | rfl
+      rcases endsRecord_head hrec with rfl | rfl | rfl | rfl | rfl | rfl | rfl
       · exact ⟨by decide, by decide, by simp [lexPrim, show isIdentStart ',' = false by decide, show isDigit ',' = false by decide]⟩
       · exact ⟨by decide, by decide, by simp [lexPrim, show isIdentStart ';' = false by decide, show isDigit ';' = false by decide]⟩
       · exact ⟨by decide, by decide, by simp [lexPrim, show isIdentStart ')' = false by decide, show isDigit ')' = false by decide]⟩
       · exact ⟨by decide, by decide, by simp [lexPrim, show isIdentStart '}' = false by decide, show isDigit '}' = false by decide]⟩
+      · exact ⟨by decide, by decide, by simp [lexPrim, show isIdentStart ':' = false by decide, show isDigit ':' = false by decide]⟩
       · exact ⟨by decide, by decide, by simp [lexPrim, show isIdentStart '\n' = false by decide, show isDigit '\n' = false by decide]⟩
       · exact ⟨by decide, by decide, by simp [lexPrim, show isIdentStart '\r' = false by decide, show isDigit '\r' = false by decide]⟩
     obtain ⟨f2, f3, f4⟩ := hfacts
@@ -669,7 +693,7 @@ theorem elem_step' {n : Nat} (ih : IHs n) (v : Value) (hs : v.size ≤ n + 1) (h
   obtain ⟨f, rfl⟩ : ∃ f, fuel = f + 1 := ⟨fuel - 1, by omega⟩
   cases v with
   | extant => exact absurd rfl hne
-  | float x => simp [Value.wf] at hw
+  | float x => exact ⟨rest, elem_prim' st i rfl hw hd, rfl⟩
   | int k m => exact ⟨rest, elem_prim' st i rfl hw hd, rfl⟩
   | bool b => exact ⟨rest, elem_prim' st i rfl hw hd, rfl⟩
   | text s => exact ⟨rest, elem_prim' st i rfl hw hd, rfl⟩
@@ -690,15 +714,13 @@ theorem elem_step' {n : Nat} (ih : IHs n) (v : Value) (hs : v.size ≤ n + 1) (h
       rw [pElem_brace hbi]
       simp [Value.norm, Attrs.norm]
     | cons nm w r =>
-      have hnmid : isIdentifier nm = true := by
-        simp only [Attrs.wf, Bool.and_eq_true] at haw; exact haw.1.1.1
-      rw [printV_record_cons', printAttrs_cons', attrName_ident hnmid]
+      rw [printV_record_cons', printAttrs_cons']
       simp only [List.cons_append, List.append_assoc]
       rw [pElem_at]
       have key : ∀ (tail rest' : List Char), AttrFollow' tail →
           (∀ g, 6 * its.size + 3 ≤ g → pAfterAttr g (Attrs.cons nm w r).norm tail =
             .ok (.record (Attrs.cons nm w r).norm its.norm, rest')) →
-          pAttrs f .nil (nm ++ (printA st i w ++ ((if r.isEmpty = true then [] else pad st ++ printAttrs st i r) ++ tail))) =
+          pAttrs f .nil (attrName nm ++ (printA st i w ++ ((if r.isEmpty = true then [] else pad st ++ printAttrs st i r) ++ tail))) =
             .ok ((Value.record (Attrs.cons nm w r) its).norm, rest') := by
         intro tail rest' hfol hR
         have := ih.attrs nm w r (by omega) haw st .nil i f tail _ (6 * its.size + 3) hfol
@@ -734,7 +756,7 @@ theorem elem_step' {n : Nat} (ih : IHs n) (v : Value) (hs : v.size ≤ n + 1) (h
               have hxw : x.wf = true := by simp only [Items.wf, Bool.and_eq_true] at hiw; exact hiw.1
               simp only [printItems, ↓reduceIte, List.nil_append, List.append_nil]
               rw [printV_prim_style st i hxp]
-              obtain ⟨c, t, hc, hps⟩ := head_prim i hxp (by intro y hy; subst hy; simp [Value.wf] at hxw)
+              obtain ⟨c, t, hc, hps⟩ := head_prim i hxp hxw
               have hl := lexPrim_value i hxp hxw hd
               rw [hc] at hl ⊢
               simp only [List.cons_append] at hl ⊢
@@ -842,11 +864,11 @@ theorem size_le_V' (st : Style) : (i : Nat) → (v : Value) → v.wf = true → 
 theorem size_le_A' (st : Style) : (i : Nat) → (a : Attrs) → a.wf = true → a.size ≤ 2 * (printAttrs st i a).length
   | _, .nil, _ => by simp [Attrs.size]
   | i, .cons n v r, hw => by
-    simp only [Attrs.wf, Bool.and_eq_true, Bool.not_eq_true'] at hw
-    have hn := ident_length_pos hw.1.1.1
-    have hv := size_le_PA' st i v hw.1.1.2
+    simp only [Attrs.wf, Bool.and_eq_true] at hw
+    have hn := attrName_length_pos n
+    have hv := size_le_PA' st i v hw.1
     have hr := size_le_A' st i r hw.2
-    rw [printAttrs_cons', attrName_ident hw.1.1.1]
+    rw [printAttrs_cons']
     simp only [Attrs.size, List.length_cons, List.length_append]
     split
     · rename_i he
@@ -866,8 +888,8 @@ theorem size_le_I' (st : Style) : (j i : Nat) → (br : Bool) → (its : Items) 
       Bool.false_eq_true, List.length_cons, List.length_nil]
     omega
   | j, i, br, .slot k v r, hw => by
-    simp only [Items.wf, Bool.and_eq_true, Bool.not_eq_true'] at hw
-    have hk := size_le_V' st j k hw.1.1.1
+    simp only [Items.wf, Bool.and_eq_true] at hw
+    have hk := size_le_V' st j k hw.1.1
     have hv := size_le_V' st j v hw.1.2
     have hr := (size_le_I' st j i br r hw.2).2
     simp only [Items.size, printItems, ↓reduceIte, List.nil_append, List.length_append,
@@ -905,7 +927,7 @@ theorem size_le_PA' (st : Style) : (i : Nat) → (v : Value) → v.wf = true →
         subst this
         simp [Items.size, Items.length] at ha ⊢
         omega
-      · by_cases h1 : (its.isSoleVal || its.isSoleSlot) = true
+      · by_cases h1 : its.isSoleVal = true
         · have hi := size_le_I' st i i false its hw.1.1.2
           simp only [h0, ↓reduceIte, h1, List.length_cons]; omega
         · have hi := size_le_I' st (inner st i its.length) i true its hw.1.1.2
